@@ -101,19 +101,20 @@ HA(sq, buflen, fill) == [ e |-> "HalfAggAggregate", in |-> [ pks |-> Pks(sq), ms
 -----------------------------------------------------------------------------
 \* G: generated input space in the real group
 NPool == IF Thorough THEN 0..64 ELSE 0..8
+NPool2 == IF Thorough THEN 0..64 ELSE { 3, 8 }          \* sequences with boundary / random keys (a scalar multiplication costs 25-80 ms in TLC)
 FlipBits == 0..767                      \* every bit of an aggregate of two signatures
 MutKinds == 1..36
 
 CasesAt(ph) ==
-       { << "agg", n, v >> : n \in NPool, v \in 1..2 }
-  \cup { << "ver", n, v >> : n \in NPool, v \in 1..2 }
+       { << "agg", n, 1 >> : n \in NPool } \cup { << "agg", n, 2 >> : n \in NPool2 }
+  \cup { << "ver", n, 1 >> : n \in NPool } \cup { << "ver", n, 2 >> : n \in NPool2 }
   \cup UNION { { << "buflen", n, len >> : len \in 0..(32 * (n + 2)) } : n \in 0..8 }
   \cup { << "incbuf", nb, len >> : nb \in 0..3, len \in 0..160 }
-  \cup { << "vflip", bit >> : bit \in { b \in FlipBits : Thorough \/ (b % 8) \in { 0, 7 } } }
-  \cup { << "vflipm", bit >> : bit \in { b \in 0..511 : Thorough \/ b % 8 = 1 } }
-  \cup { << "vflipk", bit >> : bit \in { b \in 0..511 : Thorough \/ b % 8 = 2 } }
+  \cup { << "vflip", bit >> : bit \in { b \in FlipBits : Thorough \/ b % 16 = 7 } }
+  \cup { << "vflipm", bit >> : bit \in { b \in 0..511 : Thorough \/ b % 32 = 1 } }
+  \cup { << "vflipk", bit >> : bit \in { b \in 0..511 : Thorough \/ b % 32 = 2 } }
   \cup { << "vmut", 2, 1, kind, pos >> : kind \in MutKinds, pos \in 1..2 }
-  \cup { << "vmut", 3, 2, kind, pos >> : kind \in MutKinds, pos \in 1..3 }
+  \cup { << "vmut", 3, 1, kind, 2 >> : kind \in MutKinds }
   \cup { << "vmut", n, v, kind, pos >> : n \in { 2, 3, 4 }, v \in 1..2, kind \in { k \in MutKinds : Thorough }, pos \in 1..4 }
   \cup { << "v0", kind >> : kind \in 1..9 }
 Cases == CasesAt(phase)
@@ -193,13 +194,13 @@ TinyHalf == 1..(NN \div 2)
 FewDK == IF NN <= 13 THEN TinyHalf ELSE { 1, 2, NN \div 4, NN \div 2 }
 TinyTrip == { << d, k, m >> : d \in FewDK, k \in FewDK, m \in 1..2 }
 TinyTripA == { << d, k, 1 >> : d \in FewDK, k \in FewDK }
-TinyTripB == { << d, k, 2 >> : d \in { 1, NN \div 2 }, k \in { 2, (NN \div 2) - 1 } }
+TinyTripB == { << d, k, 2 >> : d \in { 1, NN \div 2 }, k \in (IF Thorough THEN { 2, (NN \div 2) - 1 } ELSE { 2 }) }
 \* sequences whose honest aggregate is re-encoded
-TinySeqs == { << >> } \cup { << a >> : a \in TinyTrip }
+TinySeqs == { << >> } \cup { << a >> : a \in (IF Thorough THEN TinyTrip ELSE TinyTripA) }
             \cup { << a, b >> : a \in TinyTripA, b \in TinyTripB }
             \cup { << a, b, c >> : a \in TinyTripB, b \in TinyTripB, c \in { << 3, 4, 1 >> } }
 \* encodings of the aggregate scalar: j < 1000 is the literal value j; 1000 + i are re-encodings s + K_i * n of the true s
-SEncs == 0..(3 * NN + 1) \cup 1000..1005
+SEncs == 0..((IF Thorough THEN 5 ELSE 2) * NN + 1) \cup 1000..1005
 SEnc(j, s) ==
   IF j < 1000 THEN FromNat(j)
   ELSE LET room == Div(Sub(Max256, s), N)                       \* the largest K with s + K*n < 2^256
@@ -211,12 +212,14 @@ SEnc(j, s) ==
                   [] j = 1005 -> Div(room, Two)
        IN  Add(s, Mul(K, N))
 TinyXPool == IF NN <= 13 THEN SubgroupXs ELSE { X32(PMulG(FromNat(j))) : j \in { 1, 2, NN \div 2 } }
+\* quick tier: the second position ranges over half of the x coordinates
+TinyXPool2 == IF Thorough /\ NN <= 13 THEN TinyXPool ELSE { X32(PMulG(FromNat(j))) : j \in { 1, 2, NN \div 2 } }
 TinyBadR == { NBytes(SmallNoLiftX), NBytes(P), NBytes(Max256) }
 TinySPool == IF NN <= 13 THEN 0..(NN + 2) ELSE { 0, 1, 2, NN \div 2, NN - 1, NN, NN + 1 }
 TinyCasesAt(ph) ==
        { << "tvs", t, j >> : t \in TinySeqs, j \in SEncs }
-  \cup { << "tv1", rx, s, px, m >> : rx \in TinyXPool \cup TinyBadR, s \in TinySPool, px \in TinyXPool, m \in 1..2 }
-  \cup { << "tv2", r1, r2, s, p1, p2 >> : r1 \in TinyXPool, r2 \in TinyXPool \cup { NBytes(SmallNoLiftX) }, s \in 0..NN, p1 \in TinyXPool, p2 \in TinyXPool }
+  \cup { << "tv1", rx, s, px, m >> : rx \in TinyXPool \cup TinyBadR, s \in TinySPool, px \in TinyXPool, m \in (IF Thorough THEN 1..2 ELSE { 2 }) }
+  \cup { << "tv2", r1, r2, s, p1, p2 >> : r1 \in TinyXPool, r2 \in TinyXPool2 \cup { NBytes(SmallNoLiftX) }, s \in 0..NN, p1 \in TinyXPool2, p2 \in TinyXPool2 }
 TinyCases == TinyCasesAt(phase)
 ExpandTiny(c) ==
   CASE c[1] = "tvs" -> LET sq == SeqT(c[2])  n == Len(sq)  agg == AggOf(sq)  s == HaAggS(agg, n)  enc == SEnc(c[3], s)
@@ -280,7 +283,7 @@ Emit == phase = "done" => EmitRecord(rec)
 \* transition is an IncAggregate call record; every complete history additionally yields a Schedule record
 \* (the implementation runs the same composition on its own outputs).
 HistMax == IF Thorough THEN 6 ELSE 5
-HistSeqsAt(ph) == { << "sq", n, v >> : n \in 0..HistMax, v \in 1..2 }
+HistSeqsAt(ph) == { << "sq", n, 1 >> : n \in 0..HistMax } \cup { << "sq", n, 2 >> : n \in (IF Thorough THEN 1..HistMax ELSE { 2, HistMax }) }
 HistSeqs == HistSeqsAt(phase)
 TinyHistSeqsAt(ph) == { << "tsq", t >> :
                   t \in { << >> } \cup { << a >> : a \in TinyTrip }
